@@ -74,8 +74,9 @@ class C19(object):
         off = rnd.uniform(-10, 10) if full else rnd.uniform(-3, 3)
         if rnd.random() < 0.25:
             off = rnd.uniform(-0.9, 0.9)
-        workers = rnd.choice([1, 2, 2, 3, 4, 5, 7, 8, 11, 13, 16, nang + 3])
-        return {"entry": "run_iradon", "ystep": ystep, "ny": ny, "full": full, "nang": nang, "ymin": rnd.uniform(-5, 5) * ystep,
+        workers = rnd.choice([1, 2, 2, 3, 4, 5, 7, 8, 11, 13, 16, nang + 3, None])  # None: "as many as the machine has"
+        ncores = rnd.choice([1, 2, 3, 6, 16, 64])
+        return {"entry": "run_iradon", "ncores": ncores, "ystep": ystep, "ny": ny, "full": full, "nang": nang, "ymin": rnd.uniform(-5, 5) * ystep,
                 "y0_off_steps": off, "r_frac": rnd.uniform(0, 0.85), "phi": rnd.uniform(0, 2 * np.pi), "workers": workers,
                 "workers2": rnd.choice([1, 2, 3, 6]), "filter": rnd.choice(["hamming", "hamming", "ramp", "shepp-logan"]),
                 "lin_a": rnd.choice([2.0, -0.5, 3.25]), "mseed": rnd.getrandbits(32),
@@ -88,7 +89,17 @@ class C19(object):
     def recon(self, sino, omega, pad, shift, workers, mask, desc, simulate):
         """run_iradon; with simulate the pool threads are scheduled by pysched"""
         ri = self.ri
-        if not simulate or workers == 1:
+        # workers <= 0 lets the module ask the machine: the simulated machine has desc["ncores"] cores
+        saved_cores = ri.cImageD11.cores_available
+        ri.cImageD11.cores_available = lambda: desc.get("ncores", 4)
+        try:
+            return self._recon(sino, omega, pad, shift, workers, mask, desc, simulate)
+        finally:
+            ri.cImageD11.cores_available = saved_cores
+
+    def _recon(self, sino, omega, pad, shift, workers, mask, desc, simulate):
+        ri = self.ri
+        if not simulate or workers == 1 or (workers is None and desc.get("ncores", 1) == 1):
             with contextlib.redirect_stdout(io.StringIO()):
                 return ri.run_iradon(sino, omega, pad=pad, shift=shift, workers=workers, mask=mask, filter_name=desc["filter"]), None
         sched = pysched.Sched(desc["sseed"], strategy=desc["strategy"], p_inv=desc["p_inv"], quantum=desc["quantum"],
@@ -153,7 +164,7 @@ class C19(object):
         shift, pad = geo.sino_shift_and_pad(y0, ny, ymin, ystep)
         pad = int(pad)
         workers = desc["workers"]
-        meas = {"workers": {workers: 1}, "strategy": {desc["strategy"]: 1}, "scan": {"0-360" if desc["full"] else "0-180": 1},
+        meas = {"workers": {str(workers): 1}, "strategy": {desc["strategy"]: 1}, "scan": {"0-360" if desc["full"] else "0-180": 1},
                 "abs_shift_ge_1": 1 if abs(shift) >= 1 else 0}
         sched = None
         dig = []
@@ -169,13 +180,13 @@ class C19(object):
             except Exception as e:
                 viol = V("raises", "run_iradon raised %s: %s (shift %.2f pad %d)" % (type(e).__name__, e, shift, pad))
         if viol is None:
-            nontrivial = workers >= 2
+            nontrivial = (workers or desc.get("ncores", 1)) >= 2
             dig.append(enginea.sha(sim))
             if sched is not None:
                 meas["steps"], meas["switches"] = sched.steps, sched.switches
                 meas["pool_threads_spawned"] = len(sched.threads) - 1
             if sim.tobytes() != ref.tobytes():
-                viol = V("schedule-dependent", "workers=%d: the reconstruction under the simulated schedule (%s) differs bitwise "
+                viol = V("schedule-dependent", "workers=%s: the reconstruction under the simulated schedule (%s) differs bitwise "
                                                "from the one with the real pool (max diff %.3g)" %
                          (workers, desc["strategy"], np.abs(sim - ref).max()))
         mx = float(np.abs(ref).max()) if viol is None else 1.0
@@ -184,7 +195,7 @@ class C19(object):
             other, _ = self.recon(sino, omega, pad, shift, desc["workers2"], None, desc, simulate=False)
             d = np.abs(other - ref).max()
             if d > 1e-10 * mx:
-                viol = V("worker-count-dependent", "workers=%d and workers=%d differ by %.3g (max |recon| %.3g)" %
+                viol = V("worker-count-dependent", "workers=%s and workers=%s differ by %.3g (max |recon| %.3g)" %
                          (workers, desc["workers2"], d, mx))
         if viol is None:
             # (5) where the grain lands
@@ -204,7 +215,7 @@ class C19(object):
             d = np.abs(roi[mask] - ref[mask]).max()
             if d > 1e-10 * mx:
                 viol = V("roi-dependent", "restricting the reconstruction to a region-of-interest mask changes the values on the mask "
-                                          "by %.3g (max |recon| %.3g; shift %.2f px, pad %d, workers %d)" % (d, mx, shift, pad, workers))
+                                          "by %.3g (max |recon| %.3g; shift %.2f px, pad %d, workers %s)" % (d, mx, shift, pad, workers))
             elif np.abs(roi[~mask]).max() != 0:
                 viol = V("roi-dependent", "pixels outside the mask are not zero")
             dig.append(enginea.sha(roi))
